@@ -328,4 +328,5 @@ pub fn run_c13(out: &mut Out, tier: &str, seed: u64) {
         }
     }
     crate::objapi::seeded_inplace(out, &mut rng);
+    crate::objapi::conversion_edges(out, &mut rng, tier == "thorough");
 }
